@@ -107,9 +107,19 @@ func (env *evalEnv) resolveType(name string) (string, types.Type) {
 		return "Slice", types.NewSlice(types.Typ[types.Uint8])
 	case "ArrInt":
 		return "(Array Int Int)", nil
+	case "ArrSlice":
+		return "(Array Int Slice)", nil
 	}
 	if strings.HasPrefix(name, "(Array") {
 		return name, nil
+	}
+	if strings.HasPrefix(name, "arr.") {
+		// arr.T: a logical array of T values indexed by Int
+		_, et := env.resolveType(name[4:])
+		if et == nil {
+			evalFail("cannot resolve array element type %q", name)
+		}
+		return arrOf(env.fx.elemSort(et)), types.NewArray(et, 0)
 	}
 	if obj := types.Universe.Lookup(name); obj != nil {
 		if tn, ok := obj.(*types.TypeName); ok {
@@ -236,6 +246,9 @@ func (env *evalEnv) eval(e Expr) cval {
 			return cval{t: "(strat " + b.t + " " + i.t + ")", sort: "Int", typ: types.Typ[types.Uint8]}
 		case strings.HasPrefix(b.sort, "(Array "):
 			es := arrayElemSort(b.sort)
+			if at, ok := b.typ.(*types.Array); ok {
+				return cval{t: "(select " + b.t + " " + i.t + ")", sort: fx.realSort(es), typ: at.Elem()}
+			}
 			return cval{t: "(select " + b.t + " " + i.t + ")", sort: es}
 		}
 		evalFail("cannot index %s (sort %s)", x.X, b.sort)
@@ -799,6 +812,39 @@ func (env *evalEnv) evalCall(x *ECall) cval {
 		argn(1)
 		v := env.eval(x.Args[0])
 		return cval{t: "(sptr " + v.t + ")", sort: "Int"}
+	case "elems":
+		// elems(s): the elements of slice s as a logical array indexed from 0
+		argn(1)
+		v := env.eval(x.Args[0])
+		if v.sort != "Slice" {
+			evalFail("elems of non-slice %s", x.Args[0])
+		}
+		es, et := env.elemOf(v.typ)
+		mem := env.heapGet("Mem."+sanitize(es), "(Array Int "+arrOf(es)+")")
+		arr := fx.winOf(es, fmt.Sprintf("(select %s (sptr %s))", mem, v.t), "(soff "+v.t+")")
+		var at types.Type
+		if et != nil {
+			at = types.NewArray(et, 0)
+		}
+		return cval{t: arr, sort: arrOf(es), typ: at}
+	case "fieldarr":
+		// fieldarr("T", "f"): the current contents of field f of every T object,
+		// as a logical array indexed by object reference
+		argn(2)
+		_, tt := env.resolveType(typeArg(x.Args[0]))
+		if tt == nil {
+			evalFail("fieldarr: unknown type %s", x.Args[0])
+		}
+		stt, ok := tt.Underlying().(*types.Struct)
+		if !ok {
+			evalFail("fieldarr: %s is not a struct type", x.Args[0])
+		}
+		_, f := findField(stt, typeArg(x.Args[1]))
+		if f == nil {
+			evalFail("fieldarr: no field %s", x.Args[1])
+		}
+		fs := fx.sortOf(f.Type())
+		return cval{t: env.heapGet(heapNameForField(tt, f.Name()), arrOf(fs)), sort: arrOf(fs), typ: types.NewArray(f.Type(), 0)}
 	case "fieldaddr":
 		// fieldaddr(obj, fieldName): address of an embedded (by value) field
 		argn(2)
